@@ -94,10 +94,8 @@ def mount(img, sched=None, lazy=True):
         warnings.simplefilter("ignore")
         f = PyFatBytesIOFS(S.SchedDevice(dev, sched) if sched else dev, lazy_load=lazy)
     if sched:
-        f.fs._PyFat__lock = S.SLock(sched, "dev")
         f._lock = S.SLock(sched, "fs", reentrant=True)
-        if hasattr(f.fs, "fs_lock"):
-            f.fs.fs_lock = S.SLock(sched, "fsl", reentrant=True)      # file handles take it from here when they are opened
+        S.hook_locks(f.fs, sched, {"_PyFat__lock": "dev", "fs_lock": "fsl"})      # file handles take the filesystem lock from here when they are opened
     return f, dev
 
 
